@@ -103,6 +103,12 @@ def INDEX(arr, row_num=DEFAULT, column_num=DEFAULT, area_num=DEFAULT):
                 return arr[column_num - 1]
         if column_num is DEFAULT:
             return arr[row_num - 1]
+        if not bidimensional:
+            # a one-dimensional array is a single column addressed by position:
+            # never subscript one of its (text) elements with the other index
+            if row_num == 0 or column_num > 1:
+                return error.REF
+            return arr[row_num - 1]
         if row_num == 0 and column_num == 0:
             return arr
         if row_num == 0:
